@@ -572,6 +572,10 @@ class Analysis:
             # several possibilities: if all are fresh, fresh; else unknown
             if aps and all(isinstance(a[0], tuple) and a[0][0] == "fresh" and not a[1] for a in aps):
                 return sorted(aps)[0]
+            # a new object on one branch, something the caller can see on the other: what matters is the latter
+            visible = {a for a in aps if not (isinstance(a[0], tuple) and a[0][0] == "fresh" and not a[1])}
+            if len(visible) == 1 and len(visible) < len(aps) and next(iter(visible))[0] != "unknown":
+                return next(iter(visible))
             roots = {a[0] for a in aps}
             if len(roots) == 1 and "unknown" not in roots:
                 # several paths below one root (schema = config / config._schema / ...)
